@@ -57,7 +57,8 @@ func dutydbAttestation(pc *probe, k unsignedKind, ver eth2spec.DataVersion, mode
 	duty := core.NewAttesterDuty(slot)
 
 	pc.runStore(orig, func() storeOps {
-		db := dutydb.NewMemDB(newDeadliner())
+		dl := newDeadliner()
+		db := dutydb.NewMemDB(dl)
 		ops := storeOps{
 			store: func(ctx context.Context, in any) error {
 				set, _ := in.(core.UnsignedDataSet)
@@ -94,7 +95,8 @@ func dutydbProposal(pc *probe, k unsignedKind, ver eth2spec.DataVersion) {
 	orig := core.UnsignedDataSet{pubkey(pc.seed): prop}
 	duty := core.NewProposerDuty(uint64(slot))
 	pc.runStore(orig, func() storeOps {
-		db := dutydb.NewMemDB(newDeadliner())
+		dl := newDeadliner()
+		db := dutydb.NewMemDB(dl)
 		return storeOps{
 			store: func(ctx context.Context, in any) error {
 				set, _ := in.(core.UnsignedDataSet)
@@ -128,7 +130,8 @@ func dutydbAggAtt(pc *probe, k unsignedKind, ver eth2spec.DataVersion) {
 	orig := core.UnsignedDataSet{pubkey(pc.seed): agg}
 	duty := core.NewAggregatorDuty(slot)
 	pc.runStore(orig, func() storeOps {
-		db := dutydb.NewMemDB(newDeadliner())
+		dl := newDeadliner()
+		db := dutydb.NewMemDB(dl)
 		return storeOps{
 			store: func(ctx context.Context, in any) error {
 				set, _ := in.(core.UnsignedDataSet)
@@ -159,7 +162,8 @@ func dutydbContrib(pc *probe, k unsignedKind, ver eth2spec.DataVersion) {
 	// the duty slot is only the deadline key; entries are keyed by their own slot
 	duty := core.NewSyncContributionDuty(uint64(target.Slot))
 	pc.runStore(orig, func() storeOps {
-		db := dutydb.NewMemDB(newDeadliner())
+		dl := newDeadliner()
+		db := dutydb.NewMemDB(dl)
 		return storeOps{
 			store: func(ctx context.Context, in any) error {
 				set, _ := in.(core.UnsignedDataSet)
@@ -210,10 +214,11 @@ func aggsigdbProbe(pc *probe, impl string, k signedKind, ver eth2spec.DataVersio
 	pc.runStore(orig, func() storeOps {
 		ctx, cancel := context.WithCancel(context.Background())
 		var db core.AggSigDB
+		dl := newDeadliner()
 		if impl == "aggsigdb.MemDB" {
-			db = aggsigdb.NewMemDB(newDeadliner())
+			db = aggsigdb.NewMemDB(dl)
 		} else {
-			db = aggsigdb.NewMemDBV2(newDeadliner())
+			db = aggsigdb.NewMemDBV2(dl)
 		}
 		done := make(chan struct{})
 		go func() {
